@@ -1963,6 +1963,221 @@ theorem mul_sem (k : Consts R) (c r : Circuit) (n : Int) (ops : List Op) (h : c.
     | succ m ih =>
       rw [List.replicate_succ, List.flatten_cons, semOps_append, ih, Function.iterate_succ_apply]
 
+/-! ### stacking -/
+
+theorem relabel_comp (σ τ : Nat → Nat) (o : Op) : Op.relabel τ (Op.relabel σ o) = Op.relabel (τ ∘ σ) o := by
+  cases o <;> simp [Op.relabel, List.map_map]
+
+/-- structural form of `trim_sem`: the operations of the trimmed circuit are the relabelled operations -/
+theorem trim_ops (c r : Circuit) (ops : List Op) (h1 : gatesToOps c.gates = some ops) (h2 : c.trimQubits = .ok r) :
+    ∃ σ : Nat → Nat, Function.Injective σ ∧ gatesToOps r.gates = some (ops.map (Op.relabel σ)) := by
+  unfold Circuit.trimQubits at h2
+  simp only [bind, Except.bind] at h2
+  split at h2
+  · cases h2
+  · rename_i gs' hgs
+    simp only [pure, Except.pure] at h2
+    injection h2 with h2; subst h2
+    generalize hin : (c.entangledIndices.foldl (fun acc s => s.foldl setInsert acc) []) = inUse at hgs
+    refine ⟨extend inUse.zipIdx inUse.length, ?_, ?_⟩
+    · apply extend_injective
+      · intro p hp p' hp' he
+        obtain ⟨a, i⟩ := p; obtain ⟨a', i'⟩ := p'
+        simp only at he; subst he
+        have e1 := List.mem_zipIdx' hp
+        have e2 := List.mem_zipIdx' hp'
+        rw [e1.2, e2.2]
+      · intro p hp
+        obtain ⟨a, i⟩ := p
+        exact (List.mem_zipIdx' hp).1
+    · exact remapGates_toOps _ _ (fun q q' h => extend_agrees _ _ q q' h) c.gates gs' ops hgs h1
+
+theorem reindex_ops (c r : Circuit) (newIdx : List Nat) (hnd : newIdx.Nodup) (ops : List Op)
+    (h1 : gatesToOps c.gates = some ops) (h2 : c.reindexQubits newIdx = .ok r) :
+    ∃ σ : Nat → Nat, Function.Injective σ ∧ gatesToOps r.gates = some (ops.map (Op.relabel σ)) := by
+  unfold Circuit.reindexQubits at h2
+  split at h2
+  · cases h2
+  · simp only [bind, Except.bind] at h2
+    split at h2
+    · cases h2
+    · rename_i gs' hgs
+      simp only [pure, Except.pure] at h2
+      injection h2 with h2; subst h2
+      obtain ⟨M, hM⟩ := exists_bound newIdx
+      refine ⟨extend (c.indices.zip newIdx) M, ?_, ?_⟩
+      · apply extend_injective
+        · exact zip_snd_inj c.indices newIdx hnd
+        · intro p hp; exact hM p.2 (List.of_mem_zip hp).2
+      · exact remapGates_toOps _ _ (fun q q' h => extend_agrees _ _ q q' h) c.gates gs' ops hgs h1
+
+/-- a block structure: the operations are the concatenation of relabelled copies of the given operation lists -/
+def Blocks (opss : List (List Op)) (ops : List Op) : Prop :=
+  ∃ σs : List (Nat → Nat), σs.length = opss.length ∧ (∀ σ ∈ σs, Function.Injective σ) ∧
+    ops = ((opss.zip σs).map (fun p => p.1.map (Op.relabel p.2))).flatten
+
+theorem mapM_trim_ops (cs ts : List Circuit) (opss : List (List Op))
+    (hops : cs.map (fun c => gatesToOps c.gates) = opss.map some) (h : cs.mapM trimQubits = .ok ts) :
+    ∃ σs : List (Nat → Nat), σs.length = opss.length ∧ (∀ σ ∈ σs, Function.Injective σ) ∧
+      ts.map (fun c => gatesToOps c.gates) = (opss.zip σs).map (fun p => some (p.1.map (Op.relabel p.2))) := by
+  induction cs generalizing ts opss with
+  | nil =>
+    simp [pure, Except.pure] at h; subst h
+    cases opss with
+    | nil => exact ⟨[], rfl, by simp, rfl⟩
+    | cons a as => simp at hops
+  | cons c rest ih =>
+    cases opss with
+    | nil => simp at hops
+    | cons ops opss' =>
+      simp only [List.map_cons, List.cons.injEq] at hops
+      simp only [List.mapM_cons, bind, Except.bind] at h
+      cases h1 : c.trimQubits with
+      | error e => simp [h1] at h
+      | ok t =>
+        simp only [h1] at h
+        cases h2 : rest.mapM trimQubits with
+        | error e => simp [h2] at h
+        | ok ts' =>
+          simp only [h2, pure, Except.pure] at h
+          injection h with h; subst h
+          obtain ⟨σ, hσ, hg⟩ := trim_ops c t ops hops.1 h1
+          obtain ⟨σs, hl, hinj, hmap⟩ := ih ts' opss' hops.2 h2
+          refine ⟨σ :: σs, by simp [hl], ?_, ?_⟩
+          · intro τ hτ
+            rcases List.mem_cons.mp hτ with e | e
+            · subst e; exact hσ
+            · exact hinj τ e
+          · simp [hg, hmap]
+
+
+theorem range_shift_nodup (w k : Nat) : ((List.range w).map (· + k)).Nodup := by
+  apply List.Nodup.map
+  · intro a b h; simp at h; exact h
+  · exact List.nodup_range
+
+theorem stack_fold_ops :
+    ∀ (ts : List Circuit) (blocks : List (List Op)) (acc r : Circuit) (accOps : List Op),
+      ts.map (fun c => gatesToOps c.gates) = blocks.map some → gatesToOps acc.gates = some accOps →
+      ts.foldlM (fun (acc : Circuit) (c : Circuit) => do
+        let c' ← c.reindexQubits ((List.range c.width).map (· + acc.width))
+        acc.add c') acc = .ok r →
+      ∃ σs : List (Nat → Nat), σs.length = blocks.length ∧ (∀ σ ∈ σs, Function.Injective σ) ∧
+        gatesToOps r.gates = some (accOps ++ ((blocks.zip σs).map (fun p => p.1.map (Op.relabel p.2))).flatten) := by
+  intro ts
+  induction ts with
+  | nil =>
+    intro blocks acc r accOps hb hacc h
+    cases blocks with
+    | nil =>
+      simp only [List.foldlM_nil, pure, Except.pure] at h
+      injection h with h; subst h
+      exact ⟨[], rfl, by simp, by simpa using hacc⟩
+    | cons a as => simp at hb
+  | cons c rest ih =>
+    intro blocks acc r accOps hb hacc h
+    cases blocks with
+    | nil => simp at hb
+    | cons ops blocks' =>
+      simp only [List.map_cons, List.cons.injEq] at hb
+      simp only [List.foldlM_cons, bind, Except.bind] at h
+      cases h1 : c.reindexQubits ((List.range c.width).map (· + acc.width)) with
+      | error e => simp [h1] at h
+      | ok c' =>
+        simp only [h1] at h
+        cases h2 : acc.add c' with
+        | error e => simp [h2] at h
+        | ok acc1 =>
+          simp only [h2] at h
+          obtain ⟨σ, hσ, hg⟩ := reindex_ops c c' _ (range_shift_nodup c.width acc.width) ops hb.1 h1
+          have hg1 : gatesToOps acc1.gates = some (accOps ++ ops.map (Op.relabel σ)) := by
+            have := Circuit.gates_ofGates _ _ acc1 h2
+            rw [this]; exact gatesToOps_append _ _ _ _ hacc hg
+          obtain ⟨σs, hl, hinj, hr⟩ := ih blocks' acc1 r _ hb.2 hg1 h
+          refine ⟨σ :: σs, by simp [hl], ?_, ?_⟩
+          · intro τ hτ
+            rcases List.mem_cons.mp hτ with e | e
+            · subst e; exact hσ
+            · exact hinj τ e
+          · rw [hr]; simp [List.append_assoc]
+
+/-- **`stack`**: the stacked circuit is, block after block, a relabelled copy of each input circuit: there are
+    injective relabellings σ₁ … σₘ of qubit labels such that its operation list is the concatenation of the
+    operation lists of the inputs relabelled by σᵢ; by `relabel_semOps` each block acts on its part of the register
+    exactly as the corresponding input acts on its own -/
+theorem stack_sem (cs : List Circuit) (r : Circuit) (opss : List (List Op))
+    (hops : cs.map (fun c => gatesToOps c.gates) = opss.map some) (h : Circuit.stack cs = .ok r) :
+    ∃ ops, gatesToOps r.gates = some ops ∧ Blocks opss ops := by
+  unfold Circuit.stack at h
+  cases cs with
+  | nil =>
+    simp only at h
+    injection h with h; subst h
+    cases opss with
+    | nil => exact ⟨[], rfl, [], rfl, by simp, rfl⟩
+    | cons a as => simp at hops
+  | cons c0 crest =>
+    simp only [bind, Except.bind] at h
+    cases hm : (c0 :: crest).mapM trimQubits with
+    | error e => simp [hm] at h
+    | ok trimmed =>
+      simp only [hm] at h
+      obtain ⟨σas, hla, hinja, hmapa⟩ := mapM_trim_ops (c0 :: crest) trimmed opss hops hm
+      cases trimmed with
+      | nil =>
+        -- impossible: mapM keeps the length
+        have : (List.map (fun c => gatesToOps c.gates) ([] : List Circuit)).length = ((opss.zip σas).map (fun p => some (p.1.map (Op.relabel p.2)))).length := by rw [hmapa]
+        have hl0 : opss.length = (c0 :: crest).length := by have := congrArg List.length hops; simpa using this.symm
+        simp [hla] at this
+        simp only [List.length_cons] at hl0
+        omega
+      | cons first rest =>
+        simp only at h
+        -- split the data of the first block from the rest
+        cases opss with
+        | nil => simp at hops
+        | cons ops0 opss' =>
+          cases σas with
+          | nil => simp at hla
+          | cons σ0 σas' =>
+            simp only [List.map_cons, List.zip_cons_cons, List.cons.injEq] at hmapa
+            have hfirst : gatesToOps first.gates = some (ops0.map (Op.relabel σ0)) := hmapa.1
+            -- the trimmed rest as blocks
+            have hrest : rest.map (fun c => gatesToOps c.gates) =
+                ((opss'.zip σas').map (fun p => p.1.map (Op.relabel p.2))).map some := by
+              rw [hmapa.2]; simp [List.map_map]
+            obtain ⟨σbs, hlb, hinjb, hr⟩ := stack_fold_ops rest _ first r _ hrest hfirst h
+            simp only [List.length_map, List.length_zip] at hlb
+            simp only [List.length_cons] at hla
+            have hlen' : σas'.length = opss'.length := by omega
+            -- compose the relabellings block by block
+            refine ⟨_, hr, σ0 :: (σas'.zip σbs).map (fun p => p.2 ∘ p.1), ?_, ?_, ?_⟩
+            · simp [List.length_zip, hlen', hlb]
+            · intro τ hτ
+              rcases List.mem_cons.mp hτ with e | e
+              · rw [e]; exact hinja σ0 (by simp)
+              · obtain ⟨p, hp, rfl⟩ := List.mem_map.mp e
+                have h1 := hinja p.1 (by simp [(List.of_mem_zip hp).1])
+                have h2 := hinjb p.2 (List.of_mem_zip hp).2
+                exact h2.comp h1
+            · simp only [List.zip_cons_cons, List.map_cons, List.flatten_cons]
+              congr 1
+              -- block by block: relabel σb (relabel σa ops) = relabel (σb ∘ σa) ops
+              clear hr hrest hmapa hfirst h hm hops hinja hinjb hla
+              induction opss' generalizing σas' σbs with
+              | nil => simp
+              | cons o os ih =>
+                cases σas' with
+                | nil => simp at hlen'
+                | cons a as =>
+                  cases σbs with
+                  | nil => simp at hlb
+                  | cons b bs =>
+                    simp only [List.zip_cons_cons, List.map_cons, List.flatten_cons, List.map_map]
+                    congr 1
+                    · apply List.map_congr_left; intro x _; simp [relabel_comp]
+                    · exact ih as bs (by simpa using hlb) (by simpa using hlen')
+
 /-- non-vacuity of the relabelling theorems: trimming a circuit on qubits 2 and 5 gives a circuit on 0 and 1 -/
 example : ∃ c r, Circuit.ofGates [⟨"H", [2], none, .none, false⟩, ⟨"CNOT", [5], some [2], .none, false⟩] none = .ok c ∧
     c.trimQubits = .ok r ∧ r.gates = [⟨"H", [0], none, .none, false⟩, ⟨"CNOT", [1], some [0], .none, false⟩] := by
